@@ -95,6 +95,15 @@ GetExact == phase = "answered" => q.val = OccDef(bwt, q.r, q.c)
 \* ... and, independent of the action split, for all rows and symbols at once
 AllRowsExact ==
     phase = "ready" => \A r \in 0..(N - 1), c \in Sym : OccGet(st.cps[c], bwt, k, T, r, c) = OccDef(bwt, r, c)
+\* the linear row check used by the trace spec for long tables accepts exactly the definition's row:
+\* the true row passes, and every row that differs from it in one place (+1 / -1) fails
+OccRowLemma ==
+    phase = "ready" =>
+        \A c \in Sym :
+            LET row == [r \in 1..N |-> OccDef(bwt, r - 1, c)] IN
+            /\ OccRowRec(bwt, c, row) /\ OccRowDef(bwt, c, row)
+            /\ \A x \in 1..N, d \in {-1, 1} :
+                  LET bad == [row EXCEPT ![x] = @ + d] IN ~OccRowRec(bwt, c, bad) /\ ~OccRowDef(bwt, c, bad)
 \* the branch taken is the one the code takes
 BranchShape ==
     phase = "answered" =>
